@@ -230,6 +230,32 @@ func c11Selector(c *Case, fk faultKind) {
 		Desc: "planted runtime fault " + fk.name + "@second selector, after the first was processed"})
 }
 
+// ---- a -r selector that does not parse: a syntax error of the run, nothing at all is executed, input or no input
+func c11SelectorSyntax(c *Case) {
+	progs := []string{"BEGIN { print 'begin' } { print 'rule', $ } END { print 'end' }", "BEGIN { print 'begin' }", "{ print }"}
+	bad := []string{"$.(", "$.a +", ")", "[1,", "'abc", "1 = 2", "$.a.", "match ($) {", "f(", "$ $", "@", "-a = 1", "5++"}
+	for _, prog := range progs {
+		for _, sel := range bad {
+			for _, in := range []string{`{"a": 1} {"a": 2}`, "", "[1, 2]"} {
+				for _, sels := range [][]string{{sel}, {"$", sel}, {sel, "$.a"}} {
+					var files []InFile
+					if in != "" {
+						files = []InFile{{Name: "in.json", Data: []byte(in)}}
+					}
+					lib := RunLib(prog, files, sels, RunOpts{Budget: 100000})
+					c.NonTrivial("selsyntax:" + prog + "|" + strings.Join(sels, "|") + "|" + in)
+					c.Count("selector_syntax_errors")
+					if lib.Class == "syntax" && len(lib.Stdout) == 0 {
+						c.Held()
+						continue
+					}
+					c.Violation(fmt.Sprintf("selectors %q do not parse: the run must be a syntax error without any output; got %s (%s) with stdout %q | program %s | input %q", sels, lib.Class, lib.Msg, clip(string(lib.Stdout), 60), prog, in), nil, map[string]any{"program": prog, "selectors": sels, "input": in})
+				}
+			}
+		}
+	}
+}
+
 // ---- late faults: one expression site works a few times and then fails on other data (laws on the
 // implementation alone; expected output computed by hand)
 
@@ -303,6 +329,22 @@ var c11Splices = []splice{
 	{name: "assign-to-arithmetic", stmt: "aa + bb = 1"},
 	{name: "compound-assign-to-arithmetic", stmt: "aa * bb += 1"},
 	{name: "assign-to-array-literal", stmt: "[zz] = 1", where: "first"},
+	{name: "assign-to-negated-name", stmt: "-aa = 3"},
+	{name: "assign-to-logical-not", stmt: "!aa = 3"},
+	{name: "compound-assign-to-negated-name", stmt: "-aa += 3"},
+	{name: "assign-to-call-result", stmt: "idf(1) = 3"},
+	{name: "assign-to-method-call-result", stmt: "aa.length() = 3"},
+	{name: "assign-to-postfix-increment", stmt: "aa++ = 3"},
+	{name: "assign-to-match-expression", stmt: "match (1) { 1 => 2 } = 3"},
+	{name: "increment-of-a-literal", stmt: "5++"},
+	{name: "prefix-increment-of-a-literal", stmt: "++5"},
+	{name: "decrement-of-a-string-literal", stmt: "'s'--"},
+	{name: "increment-of-arithmetic", stmt: "(aa + 1)++"},
+	{name: "increment-of-an-increment", stmt: "aa++ ++"},
+	{name: "increment-of-a-call", stmt: "idf(1)++"},
+	{name: "increment-of-a-negated-name", stmt: "zz = -aa++"},
+	{name: "forin-without-in", stmt: "for (zz, yy [1, 2]) { xx = 1 }"},
+	{name: "forin-over-dollar-as-variable", stmt: "for ($ in [1, 2]) { xx = 1 }"},
 	{name: "unterminated-regex", stmt: "zz = /abc", where: "end"},
 	{name: "unterminated-string", stmt: "zz = 'abc", where: "end"},
 }
@@ -584,6 +626,9 @@ func c11Run(c *Case) {
 	}
 	if c.Idx >= m && c.Idx < m+len(c11Late) {
 		c11LateRun(c, c.Idx-m)
+		if c.Idx == m {
+			c11SelectorSyntax(c)
+		}
 		return
 	}
 	switch {
@@ -599,7 +644,7 @@ func c11Run(c *Case) {
 func init() {
 	register(&Prop{
 		ID: "C11", Level: "fault_enumeration",
-		Rule:          "fault enumeration. (a) syntax splices: a generated valid host program (starting with BEGIN { print 'early' }) x 25 splice kinds (6 illegal bytes, unmatched ) ] }, lone quote, missing operands, return outside a function, break/continue outside a loop, assignment to a literal / arithmetic result / array literal, unterminated string / regex) inserted at a random token boundary or statement position: outcome must be `syntax` with empty stdout. (b) runtime faults: 42 fault kinds x 38 syntactic positions (every operand slot, prefix operand, callee, call/method argument, array element, object value, index, member base, if/while condition, for initialiser/condition/post, for-in iterable, match subject/body expression/body block, print/printf argument, nested blocks) x 3 contexts (BEGIN; pattern rule on the 2nd of 3 elements; function called from END), plus rule pattern, return value, BEGINFILE, ENDFILE and -r selector placements (the selector alone, after output printed by the same selector, and as second selector after the first was processed); 18 late faults (a printf / arithmetic / index / regex / method site that worked on earlier data and fails on later data, output computed by hand); each planted statement is surrounded by print 'pre' / print 'post'; stdout prefix and `runtime` outcome vs the reference model. Sampled: the same faults planted at random positions of structured programs. Every cell is non-trivial; distinct by (fault, position, context) or program text.",
+		Rule:          "fault enumeration. (a) syntax splices: a generated valid host program (starting with BEGIN { print 'early' }) x 41 splice kinds (6 illegal bytes, unmatched ) ] }, lone quote, missing operands, return outside a function, break/continue outside a loop, assignment to a literal / arithmetic result / array literal / negated name / call result / increment / match expression, ++ and -- on literals / arithmetic / calls / other increments, for-in without `in` or with $ as its variable, unterminated string / regex) inserted at a random token boundary or statement position: outcome must be `syntax` with empty stdout. (b) runtime faults: 42 fault kinds x 38 syntactic positions (every operand slot, prefix operand, callee, call/method argument, array element, object value, index, member base, if/while condition, for initialiser/condition/post, for-in iterable, match subject/body expression/body block, print/printf argument, nested blocks) x 3 contexts (BEGIN; pattern rule on the 2nd of 3 elements; function called from END), plus rule pattern, return value, BEGINFILE, ENDFILE and -r selector placements (the selector alone, after output printed by the same selector, and as second selector after the first was processed); 13 selectors that do not parse x 3 programs x 3 inputs (one of them empty) x 3 selector lists: a syntax error without any output; 18 late faults (a printf / arithmetic / index / regex / method site that worked on earlier data and fails on later data, output computed by hand); each planted statement is surrounded by print 'pre' / print 'post'; stdout prefix and `runtime` outcome vs the reference model. Sampled: the same faults planted at random positions of structured programs. Every cell is non-trivial; distinct by (fault, position, context) or program text. 16 further splices of non-assignable targets (assignment to a negated name / a call result / a postfix expression, ++ and -- of literals and parenthesised sums, for-in without in, for ($ in ...)); root selectors that do not parse, alone and after valid ones, with and without input: a syntax error before anything runs.",
 		NumCases:      c11Cases,
 		Run:           c11Run,
 		MinConclusive: func(tier string) int { return 8000 },
